@@ -83,8 +83,8 @@ def eq(x, y):
             return eq(xkey, ykey) and eq(xval, yval)
         else:
             return False
-    elif isinstance(x, float) and np.isnan(x):
-        return isinstance(y, float) and np.isnan(y)    
+    elif isinstance(x, (float, np.floating)) and np.isnan(x):
+        return isinstance(y, (float, np.floating)) and np.isnan(y)
     elif isinstance(x, partial):
         return type(x) == type(y) and x.func == y.func and eq(x.keywords, y.keywords) and eq(x.args, y.args)
     else:
